@@ -122,6 +122,14 @@ def walk(ctx, g, w, init, labels, kt, pool, cache, tag, learn=None):
             if run.sc.errors:
                 ctx.violation('C14/lvs_validator/executor-error', run.sc.errors[0], robj)
                 return len(done)
+            raised = [o for o in obs[1] if o[2].startswith('exc:')]
+            if raised:
+                # a validator must answer True or False; whatever it raises is a violation of its own
+                ctx.violation('C14/lvs_validator/%s/raised:%s' % (act, raised[0][2][4:]),
+                              'world %s (kt=%s): validating %s on %s raised %s instead of returning a verdict; history %s' % (
+                                  json.dumps(dict(g.state[init]['W'].get('q', {}))), world['kt'], raised[0][1], raised[0][0],
+                                  raised[0][2][4:], json.dumps(done)), robj)
+                return len(done)
             cand = w.step(belief, act, args)
             m = frozenset(t for t in cand if proj(g.state[t]) == obs)
             if not m:
@@ -555,6 +563,11 @@ def run(ctx):
             rec, errs, bg = record(world, ctx.rng, pool, kt)
             if errs:
                 ctx.violation('C14/lvs_validator/executor-error', errs[0], {'kind': 'trace', 'rec': rec})
+            for o in rec['ev'][-1]['post']['out']:
+                if o['r'].startswith('exc:'):
+                    ctx.violation('C14/lvs_validator/trace/raised:%s' % o['r'][4:],
+                                  'validating %s on %s raised %s instead of returning a verdict (random certificate graph)' % (
+                                      o['p'], o['v'], o['r'][4:]), {'kind': 'trace', 'rec': rec})
             if bg:
                 ctx.violation('C14/lvs_validator/background-error', 'loop exception handler: %s' % bg[0], {'kind': 'trace', 'rec': rec})
             recs.append(rec)
